@@ -60,11 +60,22 @@ EmptyValueGap(kvs) ==
 
 -----------------------------------------------------------------------------
 (* Alerts and batches.  An alert is [l |-> labels, a |-> annotations,      *)
-(* end |-> "past" | "none" | "future"]: resolved iff its end is not after  *)
-(* now (model.Alert.ResolvedAt: a zero end never resolves).  A batch is a  *)
-(* sequence of alerts; the alerts LISTED in a payload are given by the     *)
-(* sequence of their positions in the batch.                               *)
-Firing(al)      == al.end # "past"
+(* end |-> "past" | "none" | "future" | "tpast" | "tfuture"]: resolved iff *)
+(* its end is not after now (model.Alert.ResolvedAt: a zero end never      *)
+(* resolves).  "tpast" / "tfuture" are ends that the API derived from      *)
+(* resolve_timeout because the client sent none (alert.Alert.Timeout =     *)
+(* TRUE): where the end came from makes no difference to the payload - a   *)
+(* timed-out alert whose end has passed is listed as resolved with that    *)
+(* end, one whose end is ahead as firing.  A batch is a sequence of        *)
+(* alerts; the alerts LISTED in a payload are given by the sequence of     *)
+(* their positions in the batch.                                           *)
+AllEnds         == {"past", "none", "future", "tpast", "tfuture"}
+Firing(al)      == al.end \notin {"past", "tpast"}
+TimedOut(al)    == al.end \in {"tpast", "tfuture"}
+AlertStatus(al) == IF Firing(al) THEN "firing" ELSE "resolved"
+\* alert.Alerts (the conversion behind every payload) exposes the end of a
+\* resolved alert only; the statement does not fix what a firing alert shows
+ExposedEnd(al)  == IF Firing(al) THEN "zero" ELSE "end"
 Indices(n)      == [i \in 1 .. n |-> i]
 FiringIdx(b, idx)   == SelectSeq(idx, LAMBDA i : Firing(b[i]))
 ResolvedIdx(b, idx) == SelectSeq(idx, LAMBDA i : ~Firing(b[i]))
